@@ -124,7 +124,7 @@ func (s *SUT) Receive(i int) Op {
 	res := "ok"
 	switch {
 	case err == nil:
-	case strings.Contains(err.Error(), "lower than in sync height"), strings.Contains(fmt.Sprint(err), "forbidden"), strings.Contains(fmt.Sprint(err), "Forbidden"):
+	case sn.IsForbidden(err):
 		res = "ignored(" + err.Error() + ")"
 	default:
 		res = "FAIL(" + err.Error() + ")"
@@ -239,11 +239,14 @@ func (s *SUT) SubmitTx(x *pb.Transaction) string {
 		}
 	}
 	res := "ok"
+	known := false // refused as already pending / already confirmed: allowed for an admissible transaction
 	ok, err := s.N.State.VerifyTx(c)
 	if err != nil || !ok {
 		res = fmt.Sprintf("verify:%v", err)
+		known = sn.IsAlreadyPending(err) || sn.IsAlreadyConfirmed(err)
 	} else if err := s.N.State.DoTx(c); err != nil {
 		res = "dotx:" + err.Error()
+		known = sn.IsAlreadyPending(err) || sn.IsAlreadyConfirmed(err)
 	} else {
 		s.Stats["pool.admitted"]++
 	}
@@ -252,7 +255,7 @@ func (s *SUT) SubmitTx(x *pb.Transaction) string {
 			s.pending = append(s.pending, Problem{Sig: "admission|admitted-inadmissible|submit",
 				Detail: fmt.Sprintf("submitted tx %x admitted although: %s", c.Txid, why)})
 		}
-		if res != "ok" && adm && !strings.Contains(res, "this transaction is in unconfirmed state") && !strings.Contains(res, "already confirmed on the main chain") {
+		if res != "ok" && adm && !known {
 			s.pending = append(s.pending, Problem{Sig: "admission|refused-admissible|submit",
 				Detail: fmt.Sprintf("submitted tx %x refused (%s) although every input is current", c.Txid, res)})
 		}
